@@ -276,7 +276,7 @@ def check_preprocess_stateless(ctx: Ctx) -> None:
     flow = prog.flow(pp)
     loops = [h for h in flow.cfg.nodes if h.kind == "for"]
     for h in loops:
-        carried, allowed = unexpected_carried(prog, pp, h)
+        carried, allowed = unexpected_carried(prog, pp, h, neighbour_registers=True)
         bad = sorted(carried - allowed)
         ctx.ob("R-ATOMIC-pre", f"{pp.qual} :: no mode is carried from line to line", not bad,
                "blank lines around tag-delimited blocks are decided from the current line and its neighbours; a flag that persists across lines "
